@@ -29,7 +29,7 @@ META = {
         'REDMONSTER on ormask, dilates each row with width 2*ngrow+1 using the edge-truncating smooth, multiplies invvar by the '
         'complement; C17.SKY-CAST - each & between the caller\'s mask and a uint64 flag value has an explicit conversion. '
         'C17.MEDIAN - djs_median does not pad with the non-repeating reflect mode of numpy.pad. NOT decided: the explicit reflection slices of djs_median, maxrej/group logic, numerical interpolation values.'),
-    'floors': {'C17.MI-SITES': 11, 'C17.MI1-STORE': 6, 'C17.MI1-ORDER': 1, 'C17.GROW': 3, 'C17.REJ-MASKS': 10, 'C17.AESTH': 4,
+    'floors': {'C17.SMOOTH': 3, 'C17.MI-SITES': 11, 'C17.MI1-STORE': 6, 'C17.MI1-ORDER': 1, 'C17.GROW': 3, 'C17.REJ-MASKS': 10, 'C17.AESTH': 4,
                'C17.SKY': 5, 'C17.SKY-CAST': 2, 'C17.MEDIAN': 1},
 }
 
@@ -463,8 +463,32 @@ def check_median(ctx, repo):
     ctx.notes['median_reflect_blocks'] = n
 
 
+def check_smooth_width(ctx, repo):
+    """C17.SMOOTH: skymask grows flagged pixels by ngrow through smooth(mask, 2*ngrow+1); the window smooth() uses must be the requested
+    width made odd - a window silently narrowed (to the signal length, say) shrinks the growth on short rows."""
+    f = repo.func('pydl/smooth.py', 'smooth')
+    ctx.cover(f)
+    wparam = f.params[1]
+    binds = [st for st in walk_local(f.node) if isinstance(st, (ast.Assign, ast.AugAssign)) and any(
+        isinstance(t, ast.Name) and t.id in ('width', wparam) for t in (st.targets if isinstance(st, ast.Assign) else [st.target]))]
+    ctx.need(binds, 'smooth: the binding of the window width was not found')
+    for st in binds:
+        v = src(st.value).replace(' ', '')
+        ok = isinstance(st, ast.Assign) and v in (wparam, wparam + '+1', '1+' + wparam, wparam + '|1', wparam + '+(1-%s%%2)' % wparam)
+        ctx.check('C17.SMOOTH', ok, f, st, 'smooth: the window is the requested width made odd (`%s`)' % src(st)[:40],
+                  msg='smooth rebinds its window width with `%s`: the window is no longer the requested one, so the sky-mask growth (and the bad-region growth of '
+                      'combine1fiber) reaches fewer pixels than asked for' % src(st)[:50], construct='smooth window changed: ' + src(st)[:50])
+    rets = [r for r in walk_local(f.node) if isinstance(r, ast.Return) and r.value is not None and src(r.value) == f.params[0]]
+    for r in rets:
+        conds = [src(a.test).replace(' ', '') for a in ancestors(r) if isinstance(a, ast.If)]
+        ok = conds in (['width<3'], ['%s<3' % wparam], ['width<=1'], ['width==1'], ['width<2'])
+        ctx.check('C17.SMOOTH', ok, f, r, 'smooth returns the input unchanged only for a window narrower than 3 (%s)' % conds,
+                  msg='smooth returns its input unchanged under %s' % conds, construct='smooth early return under %s' % conds)
+
+
 def run(ctx):
     repo = ctx.repo
+    check_smooth_width(ctx, repo)
     check_median(ctx, repo)
     n = check_mi_sites(ctx, repo)
     ctx.need(n >= 11, 'djs_maskinterp: fewer than 11 dispatch sites')
